@@ -40,7 +40,7 @@ theorem predictRaw_mkCoeffs [Field K] (per : List (List (List K × K))) (var : L
 `state → povm_s` run on the state built from `var`; schedule by schedule, same order. No hypothesis on the testers or
 on the schedule list.  Remark: the identity is about the truncating dot product `ldot` (`zipWith`): for a `var` whose
 length is not `num_variables` both sides truncate alike, whereas numpy raises — that shape error is modelled by
-`predict`, and `qst_cols` gives the row length that makes `predict` succeed. -/
+`predict`; `qst_predict_ok` (and `povmt_ / qpt_ / qmpt_predict_ok`) is the variant with the length hypotheses on `predict`. -/
 theorem qst_affine [Field K] (flag : Bool) (r : K) (povms : List (List (List K))) (scheds : List Nat)
     (cs : List (Coeff K)) (var : List K) (h : qstCoeffs flag r povms scheds = some cs) :
     ∃ per, cs = mkCoeffs per ∧
@@ -152,6 +152,72 @@ theorem qmpt_walk_eq_born [Field K] [DecidableEq K] (r : K) (povm : List (List K
   simp only [Function.comp_apply]
   rw [ldot_comm, ldot_div_left, ldot_comm, ← mul_div_assoc]
   exact mul_div_cancel_left₀ _ hne
+
+/-- C08.1 (QMPT) the circuit walk WITH the code's thresholds (`eps_zero` clipping and renormalisation of the ensemble,
+unrenormalised post states, `< eps_zero` members skipped, `truncate_and_normalize` of every (Povm, State) step) equals the
+ideal joint probabilities when no outcome probability is clipped (`p_x > eps_zero ≥ 0`) and every conditional
+distribution is proper (entries 0 or ≥ `atol`, sum 1). Boundary objects (clipped outcomes) are covered by the
+correspondence op `circuiteps` only. -/
+theorem qmpt_walk_eps_eq_born [Field K] [LinearOrder K] [IsStrictOrderedRing K] (r epsZero epsTrunc : K)
+    (povm : List (List K)) (hss : List (List (List K))) (rho : List K) (h0 : 0 ≤ epsZero)
+    (h1 : ∀ hs ∈ hss, ¬ r * firstEntry (matVec hs rho) ≤ epsZero)
+    (h2 : ∀ hs ∈ hss,
+      (∀ q ∈ bornPovmState povm ((matVec hs rho).map (· / (r * firstEntry (matVec hs rho)))), q < epsTrunc → q = 0) ∧
+      lsum (bornPovmState povm ((matVec hs rho).map (· / (r * firstEntry (matVec hs rho))))) = 1) :
+    circuitPovmMprocessStateEps r epsZero epsTrunc povm hss rho = bornPovmMprocessState povm hss rho := by
+  unfold circuitPovmMprocessStateEps bornPovmMprocessState
+  have hraw : ((hss.map fun hs => matVec hs rho).map fun mrho =>
+        (let p := r * firstEntry mrho; if p ≤ epsZero then 0 else p)) =
+      (hss.map fun hs => matVec hs rho).map fun mrho => r * firstEntry mrho := by
+    apply List.map_congr_left
+    intro m hm
+    obtain ⟨hs, hhs, rfl⟩ := List.mem_map.1 hm
+    simp [h1 hs hhs]
+  have htr : ((hss.map fun hs => matVec hs rho).any fun mrho => decide (r * firstEntry mrho ≤ epsZero)) = false := by
+    rw [List.any_eq_false]
+    intro m hm
+    obtain ⟨hs, hhs, rfl⟩ := List.mem_map.1 hm
+    simp [h1 hs hhs]
+  simp only [hraw, htr, Bool.false_and, Bool.false_eq_true, if_false]
+  rw [zip_zip_map_self, List.flatMap_map, List.flatMap_map]
+  apply List.flatMap_congr
+  intro hs hhs
+  have hp := h1 hs hhs
+  have hlt : epsZero < r * firstEntry (matVec hs rho) := lt_of_not_ge hp
+  have hne : r * firstEntry (matVec hs rho) ≠ 0 := ne_of_gt (lt_of_le_of_lt h0 hlt)
+  simp only [hne, if_false, not_lt_of_gt hlt]
+  rw [truncNorm_id_zero_or_large' epsTrunc _ (h2 hs hhs).1 (h2 hs hhs).2]
+  simp only [bornPovmGateState, bornPovmState, List.map_map]
+  apply List.map_congr_left
+  intro e _
+  simp only [Function.comp_apply]
+  rw [ldot_comm, ldot_div_left, ldot_comm, ← mul_div_assoc]
+  exact mul_div_cancel_left₀ _ hne
+
+
+/-- the same, lifted to the executed `qmptCircuitWalkEps` (driver op `circuiteps`) for all schedules. -/
+theorem qmptCircuitWalkEps_eq [Field K] [LinearOrder K] [IsStrictOrderedRing K] (flag : Bool)
+    (r epsZero epsTrunc : K) (n m : Nat) (states : List (List K)) (povms : List (List (List K)))
+    (scheds : List (Nat × Nat)) (var : List K) (h0 : 0 ≤ epsZero)
+    (hp : ∀ ij ∈ scheds, ∀ rho, states[ij.1]? = some rho → ∀ povm, povms[ij.2]? = some povm →
+      ∀ hs ∈ mprocessOf flag n m var, ¬ r * firstEntry (matVec hs rho) ≤ epsZero ∧
+        (∀ q ∈ bornPovmState povm ((matVec hs rho).map (· / (r * firstEntry (matVec hs rho)))), q < epsTrunc → q = 0) ∧
+        lsum (bornPovmState povm ((matVec hs rho).map (· / (r * firstEntry (matVec hs rho))))) = 1) :
+    qmptCircuitWalkEps flag r epsZero epsTrunc n m states povms scheds var =
+      qmptCircuit flag n m states povms scheds var := by
+  unfold qmptCircuitWalkEps qmptCircuit
+  apply mapM_opt_congr
+  rintro ⟨i, j⟩ hij
+  cases hs : states[i]? with
+  | none => simp [hs]
+  | some rho =>
+    cases hq : povms[j]? with
+    | none => simp [hs, hq]
+    | some povm =>
+      simp only [hs, hq, Option.bind_eq_bind, Option.bind_some, Option.pure_def, Option.some.injEq]
+      exact qmpt_walk_eps_eq_born r epsZero epsTrunc povm _ rho h0
+        (fun hs' hh => (hp (i, j) hij rho hs povm hq hs' hh).1)
+        (fun hs' hh => (hp (i, j) hij rho hs povm hq hs' hh).2)
 
 /-- C08.1 (QMPT) lifted to the executed circuit walk (driver op `circuit … walk=1`): if on every scheduled tester state
 no outcome of the measurement process built from `var` has `p_x = 0`, the walked circuit of all schedules equals the
@@ -278,6 +344,109 @@ theorem qmpt_cols [Field K] (flag : Bool) (m : Nat) (rho : List K) (povm : List 
       if flag then (m - 1) * (rho.length * rho.length) + (rho.length * rho.length - rho.length)
       else m * (rho.length * rho.length) :=
   qmpt_cols' flag m rho povm rows hm hr hE h
+
+/-! ### length-checked variants on the executed `predict` -/
+
+/-- C08.1/2 (QST) on the EXECUTED `predict` (numpy's `matA @ var` with its shape check): tester vectors of length `n` and
+`var` of length `num_variables` ⇒ `calc_matA() @ var + calc_vecB()` does not raise and is the concatenation, in schedule
+order, of the circuit distributions on the state built from `var`. -/
+theorem qst_predict_ok [Field K] (flag : Bool) (r : K) (n : Nat) (povms : List (List (List K))) (scheds : List Nat)
+    (cs : List (Coeff K)) (var : List K) (hp : ∀ povm ∈ povms, ∀ vec ∈ povm, vec.length = n)
+    (hv : var.length = if flag then n - 1 else n) (h : qstCoeffs flag r povms scheds = some cs) :
+    ∃ dists, qstCircuit flag r povms scheds var = some dists ∧ predict cs var = .ok dists.flatten := by
+  unfold qstCoeffs at h
+  simp only [Option.bind_eq_bind, Option.bind_eq_some_iff, Option.pure_def, Option.some.injEq] at h
+  obtain ⟨per, hper, rfl⟩ := h
+  have hc : qstCircuit flag r povms scheds var = some (per.map fun rows => rows.map (rowVal var)) := by
+    unfold qstCircuit
+    apply mapM_opt_lift _ _ (fun rows => rows.map (rowVal var)) _ scheds per hper
+    intro pj rows hrows
+    simp only [Option.bind_eq_bind, Option.bind_eq_some_iff] at hrows
+    obtain ⟨povm, hp', hs⟩ := hrows
+    simp [hp', qstSched_eq flag r povm var rows hs]
+  refine ⟨_, hc, ?_⟩
+  have hrows : ∀ rows ∈ per, ∀ ab ∈ rows, ab.1.length = var.length := by
+    intro rows hr ab hab
+    obtain ⟨pj, _, hf⟩ := mapM_opt_mem _ scheds per hper rows hr
+    simp only [Option.bind_eq_bind, Option.bind_eq_some_iff] at hf
+    obtain ⟨povm, hpv, hs⟩ := hf
+    obtain ⟨vec, hvec, hrow⟩ := mapM_opt_mem _ povm rows hs ab hab
+    rw [qst_cols flag r n vec ab.1 ab.2 (hp povm (List.mem_of_getElem? hpv) vec hvec) hrow, hv]
+  rw [predict_mkCoeffs per var hrows, predictRaw_mkCoeffs]
+
+/-- C08.1/2 (QPT) on the executed `predict`, with the length hypotheses. -/
+theorem qpt_predict_ok [Field K] (flag : Bool) (n : Nat) (states : List (List K))
+    (povms : List (List (List K))) (scheds : List (Nat × Nat)) (cs : List (Coeff K)) (var : List K)
+    (hstates : ∀ rho ∈ states, rho.length = n) (hpovms : ∀ povm ∈ povms, ∀ e ∈ povm, e.length = n)
+    (hvar : var.length = (if flag then n - 1 else n) * n)
+    (h : qptCoeffs flag states povms scheds = some cs) :
+    ∃ dists, qptCircuit flag n states povms scheds var = some dists ∧ predict cs var = .ok dists.flatten := by
+  obtain ⟨per0, hcs0, hc⟩ := qpt_affine flag n states povms scheds cs var hstates hvar h
+  unfold qptCoeffs at h
+  simp only [Option.bind_eq_bind, Option.bind_eq_some_iff, Option.pure_def, Option.some.injEq] at h
+  obtain ⟨per, hper, rfl⟩ := h
+  have hrows : ∀ rows ∈ per, ∀ ab ∈ rows, ab.1.length = var.length := by
+    intro rows hr ab hab
+    obtain ⟨⟨i, j⟩, _, hf⟩ := mapM_opt_mem _ scheds per hper rows hr
+    simp only [Option.bind_eq_bind, Option.bind_eq_some_iff] at hf
+    obtain ⟨rho, hrho, povm, hpv, hs⟩ := hf
+    unfold qptSched cQpt at hs
+    rw [mapM_map_opt] at hs
+    obtain ⟨e, he, hrow⟩ := mapM_opt_mem _ povm rows hs ab hab
+    have hl : rho.length = n := hstates rho (List.mem_of_getElem? hrho)
+    have hel : e.length = rho.length := by rw [hl]; exact hpovms povm (List.mem_of_getElem? hpv) e he
+    rw [qpt_cols flag rho e ab.1 ab.2 hel hrow, hvar, hl]
+    cases flag <;> simp [Nat.sub_mul]
+  refine ⟨_, hc, ?_⟩
+  rw [predict_mkCoeffs per var hrows, hcs0, predictRaw_mkCoeffs per0 var]
+
+/-- C08.1/2 (POVMT) on the executed `predict`, with the length hypotheses. -/
+theorem povmt_predict_ok [Field K] (flag : Bool) (r : K) (n m : Nat) (states : List (List K))
+    (scheds : List Nat) (cs : List (Coeff K)) (var : List K) (hm : 0 < m)
+    (hstates : ∀ rho ∈ states, rho.length = n)
+    (hvar : var.length = (if flag then m - 1 else m) * n)
+    (h : povmtCoeffs flag r m states scheds = some cs) :
+    ∃ dists, povmtCircuit flag r n m states scheds var = some dists ∧ predict cs var = .ok dists.flatten := by
+  obtain ⟨per0, hcs0, hc⟩ := povmt_affine flag r n m states scheds cs var hm hstates hvar h
+  unfold povmtCoeffs at h
+  simp only [Option.bind_eq_bind, Option.bind_eq_some_iff, Option.pure_def, Option.some.injEq] at h
+  obtain ⟨per, hper, rfl⟩ := h
+  have hrows : ∀ rows ∈ per, ∀ ab ∈ rows, ab.1.length = var.length := by
+    intro rows hr ab hab
+    obtain ⟨i, _, hf⟩ := mapM_opt_mem _ scheds per hper rows hr
+    simp only [Option.bind_eq_bind, Option.bind_eq_some_iff] at hf
+    obtain ⟨rho, hrho, hs⟩ := hf
+    obtain ⟨x, hx, hrow⟩ := mapM_opt_mem _ _ rows hs ab hab
+    rw [povmt_cols flag r m rho x ab.1 ab.2 (List.mem_range.1 hx) hrow, hvar,
+      hstates rho (List.mem_of_getElem? hrho)]
+  refine ⟨_, hc, ?_⟩
+  rw [predict_mkCoeffs per var hrows, hcs0, predictRaw_mkCoeffs per0 var]
+
+/-- C08.1/2 (QMPT) on the executed `predict`, with the length hypotheses. -/
+theorem qmpt_predict_ok [Field K] (flag : Bool) (n m : Nat) (states : List (List K))
+    (povms : List (List (List K))) (scheds : List (Nat × Nat)) (cs : List (Coeff K)) (var : List K)
+    (hm : 0 < m) (hn : 0 < n) (hstates : ∀ rho ∈ states, rho.length = n)
+    (hpovms : ∀ povm ∈ povms, ∀ e ∈ povm, e.length = n)
+    (hvar : var.length = if flag then (m - 1) * (n * n) + (n - 1) * n else m * (n * n))
+    (h : qmptCoeffs flag m states povms scheds = some cs) :
+    ∃ dists, qmptCircuit flag n m states povms scheds var = some dists ∧ predict cs var = .ok dists.flatten := by
+  obtain ⟨per0, hcs0, hc⟩ := qmpt_affine flag n m states povms scheds cs var hm hn hstates hpovms hvar h
+  unfold qmptCoeffs at h
+  simp only [Option.bind_eq_bind, Option.bind_eq_some_iff, Option.pure_def, Option.some.injEq] at h
+  obtain ⟨per, hper, rfl⟩ := h
+  have hrows : ∀ rows ∈ per, ∀ ab ∈ rows, ab.1.length = var.length := by
+    intro rows hr ab hab
+    obtain ⟨⟨i, j⟩, _, hf⟩ := mapM_opt_mem _ scheds per hper rows hr
+    simp only [Option.bind_eq_bind, Option.bind_eq_some_iff] at hf
+    obtain ⟨rho, hrho, povm, hpv, hs⟩ := hf
+    have hl : rho.length = n := hstates rho (List.mem_of_getElem? hrho)
+    have hE : ∀ e ∈ povm, e.length = rho.length := by
+      intro e he; rw [hl]; exact hpovms povm (List.mem_of_getElem? hpv) e he
+    rw [qmpt_cols flag m rho povm rows hm (by rw [hl]; exact hn) hE hs ab hab, hvar, hl]
+    cases flag <;> simp [Nat.sub_mul]
+  refine ⟨_, hc, ?_⟩
+  rw [predict_mkCoeffs per var hrows, hcs0, predictRaw_mkCoeffs per0 var]
+
 
 /-- C08.4 `calc_prob_dists` as coded (`reshape((num_schedules, -1))`, then `truncate_and_normalize` row by row):
 it returns the circuit's per-schedule distributions (each passed through `truncate_and_normalize`, the identity on
@@ -523,5 +692,32 @@ example : predict (mkCoeffs [[(([1/2] : List Rat), (0 : Rat)), ([1/2], 0)], [([1
 /-- `qmpt_cols` on an instance (`n = 2`, `m = 2`, flag on: `m·n² − n = 6` columns in every row) -/
 example : (qmptSched (K := Rat) true 2 [1, 2] [[1, 1], [3, -1]]).map (fun rows => rows.map (·.1.length)) =
     some [6, 6, 6, 6] := by decide +kernel
+
+/-- `qst_predict_ok` on the X, Y, Z instance: `predict` succeeds (3 variables) and gives the six Born probabilities -/
+example : (qstCoeffs true (1 : Rat)
+    [[[1/2, 1/2, 0, 0], [1/2, -1/2, 0, 0]], [[1/2, 0, 1/2, 0], [1/2, 0, -1/2, 0]], [[1/2, 0, 0, 1/2], [1/2, 0, 0, -1/2]]]
+    [0, 1, 2]).map (fun cs => predict cs [1/2, 1/4, 0]) =
+    some (.ok [3/4, 1/4, 5/8, 3/8, 1/2, 1/2]) := by
+  have h : qstCoeffs true (1 : Rat)
+      [[[1/2, 1/2, 0, 0], [1/2, -1/2, 0, 0]], [[1/2, 0, 1/2, 0], [1/2, 0, -1/2, 0]], [[1/2, 0, 0, 1/2], [1/2, 0, 0, -1/2]]]
+      [0, 1, 2] = some (mkCoeffs [[([1/2, 0, 0], 1/2), ([-1/2, 0, 0], 1/2)], [([0, 1/2, 0], 1/2), ([0, -1/2, 0], 1/2)],
+        [([0, 0, 1/2], 1/2), ([0, 0, -1/2], 1/2)]]) := by decide +kernel
+  rw [h]
+  simp only [Option.map_some, predict, predictRaw]
+  rw [dict_sorted]
+  decide +kernel
+
+/-- a `var` of the wrong length: numpy's shape error -/
+example : predict (mkCoeffs [[(([1/2, 0, 0] : List Rat), (1/2 : Rat))]]) [1/2, 1/4] = .error .shape := by
+  unfold predict; rw [dict_sorted]; decide +kernel
+
+/-- the thresholded walk on an interior toy instance (no clipping, proper conditionals): equals the ideal circuit;
+and on a boundary instance (second gate annihilates the state: `p = 0` is clipped) it returns the zero block -/
+example : circuitPovmMprocessStateEps (K := Rat) 1 (1/100000000) (1/10000000000000) [[1/2, 1/2], [1/2, -1/2]]
+    [[[1/2, 0], [0, 1/2]], [[1/2, 0], [0, -1/2]]] [1, 1/2] =
+    bornPovmMprocessState [[1/2, 1/2], [1/2, -1/2]] [[[1/2, 0], [0, 1/2]], [[1/2, 0], [0, -1/2]]] [1, 1/2] := by
+  decide +kernel
+example : circuitPovmMprocessStateEps (K := Rat) 1 (1/100000000) (1/10000000000000) [[1/2, 1/2], [1/2, -1/2]]
+    [[[1, 0], [0, 1]], [[0, 0], [0, 0]]] [1, 1/2] = [3/4, 1/4, 0, 0] := by decide +kernel
 
 end QM.C08
